@@ -167,6 +167,8 @@ func (c *connection) send(conn net.Conn, connDone chan bool) {
 		default:
 			select {
 			case m = <-c.client.sendQueue: // Fetch jobs
+			case <-connDone: // connection closed while waiting for a job
+				return
 			case <-t.C:
 				if c.isClosed {
 					return
@@ -178,6 +180,14 @@ func (c *connection) send(conn net.Conn, connDone chan bool) {
 				}
 				continue
 			}
+		}
+		select {
+		case <-connDone:
+			// this connection died while the job was being fetched: leave the job to the sender of
+			// the current connection instead of writing it to a connection known to be dead
+			c.client.sendFailQueue <- m
+			return
+		default:
 		}
 		atomic.AddInt32(&c.invokeNum, 1)
 		if c.client.config.WriteTimeout != 0 {
@@ -266,7 +276,11 @@ func (c *connection) recv(conn net.Conn, connDone chan bool) {
 func (c *connection) close(conn net.Conn) {
 	c.connLock.Lock()
 	defer c.connLock.Unlock()
-	c.isClosed = true
+	if conn == nil || conn == c.conn {
+		// only the loss of the current connection makes the client closed; a stale
+		// connection being torn down must not hide a newer healthy one
+		c.isClosed = true
+	}
 	if conn != nil {
 		_ = conn.Close()
 	}
